@@ -10,7 +10,7 @@ def run(tier, seed, replay=None):
     rng = vlib.Rng(seed)
     n, maxops = (220, 60) if tier == 'quick' else (3000, 250)
     prof = dict(mgr.PROFILE_BASIC)
-    prof['pals'] = [0, 1, 2, 3, 4, 5, 6, 7, 8, 9]
+    prof['pals'] = [0, 1, 2, 3, 4, 5, 6, 7, 8, 9, 12, 13]
     prof['deps'] = 40          # declared dependencies in 40% of the scripts: a dependent component gained at a flush must be initialised
     scripts = mgr.corpus('C02') + [('g%d' % i, mgr.gen_script(rng.fork('c02-%d' % i), maxops, prof)) for i in range(n)]
     return mgrcheck.run_check(PROP, scripts, ASPECTS, replay=replay,
